@@ -53,8 +53,8 @@ CHECKS = {
              note='main package only; spurious reports not judged', ref='§6 C19'),
 
  'C20': dict(engine='S', technique='stateless DFS over schedules of the real (mechanically rewritten) code under a controlled scheduler with iterative preemption bounding',
-             text='lib/build-sched.sh rewrites the concurrency constructs of the current sources onto the vsched shims and links the rewritten MapParallel into the worker; every interleaving up to the preemption bound (and the unbounded space for the smallest cases) is executed for all slice lengths / worker counts: result equals the sequential map in input order, f invoked exactly once per element, no deadlock, leak or panic.',
-             note='covers part (a) MapParallel; parts (b)-(d) (state initialisation, summary pass, report writer) are not covered yet; sequentially consistent scheduler', ref='§6 C20'),
+             text='lib/build-sched.sh rewrites the concurrency constructs of the current sources onto the vsched shims and links the rewritten MapParallel into the worker; every interleaving up to the preemption bound (and the unbounded space for the smallest cases) is executed for all slice lengths / worker counts: result equals the sequential map in input order, f invoked exactly once per element, no deadlock, leak or panic. (b)-(d): the whole taint analysis (three initialisation goroutines, parallel summary pass, report writer) runs under the scheduler for all 16 subsets of report options x eager/on-demand with vector-clock race probes on every map read/write: no unordered conflicting map access, no deadlock/leak, summaries report complete at the moment Analyze returns.',
+             note='race probes on map reads/writes only (struct fields, slice elements not probed); whole-analysis exploration capped per option set; sequentially consistent scheduler', ref='§6 C20'),
 
  'C15': dict(engine='L', technique='explicit-state BFS over escape graphs built with the real AddEdge/MergeNodeStatus (lattice laws on all pairs/triples), enumerated weakenings for monotonicity of the real transfer function, explicit-state search over all worklist orders of the real ProcessBlock',
              text='(a) all graphs within d operations of the empty graph over 3-4 node universes: idempotence, commutativity, upper bound, absorption on all pairs, associativity on triples, with the real Merge/LessEqual/Matches; (b) T(g)<=T(w) for the fixpoint graph g at every instruction of every summarised function and every well-typed one-step (thorough: two-step) weakening w; (c) every worklist order of the block-level iteration reaches the tool\'s fixpoint.',
